@@ -44,10 +44,12 @@ let denom_tbl = Array.mapi (fun i _ -> n_of_int i) denoms
 let denom_of s = denom_tbl.(index_of denoms s)
 let dname d = let i = int_of_n d in if i >= 0 && i < 4 then denoms.(i) else "?d" ^ string_of_int i
 let val_tbl = Array.init nvals n_of_int
+(* val0..val7 exist on the chain; val8/val9 may appear inside contract messages (not on chain) *)
+let val_all = Array.init 10 n_of_int
 let val_of s =
   if String.length s = 4 && String.sub s 0 3 = "val" then
     let k = Char.code s.[3] - 48 in
-    if k >= 0 && k < nvals then val_tbl.(k) else failwith ("bad validator " ^ s)
+    if k >= 0 && k < 10 then val_all.(k) else failwith ("bad validator " ^ s)
   else failwith ("bad validator " ^ s)
 let vname v = "val" ^ string_of_int (int_of_n v)
 
